@@ -49,10 +49,12 @@ func init() {
 				Old: "\t\t\tif ig.match(*diag) {\n\t\t\t\tdiag.Severity = severityIgnored\n\t\t\t}\n", New: "\t\t\tif ig.match(*diag) || diag.Category == \"ST1000\" {\n\t\t\t\tdiag.Severity = severityIgnored\n\t\t\t}\n"},
 			{Name: "unmatched-reported-even-if-matched", File: "lintcmd/lint.go", Rule: "R10.3", KeyPart: "unmatched-directive",
 				Old: "\t\tif ig, ok := ig.(*lineIgnore); ok && !ig.Matched && couldHaveMatched(ig) {", New: "\t\tif ig, ok := ig.(*lineIgnore); ok && couldHaveMatched(ig) {"},
-			{Name: "u1000-ignores-flagged", File: "lintcmd/lint.go", Rule: "R10.3", KeyPart: "u1000-never-flagged",
-				Old: "\t\t\tif c.String() == \"u1000\" {", New: "\t\t\tif c.String() == \"u1000\" && len(ig.Checks) > 1 {"},
+			{Name: "u1000-decides-for-the-whole-directive", File: "lintcmd/lint.go", Rule: "R10.3", KeyPart: "u1000-never-flagged",
+				Old: "\t\t\t\t// wherever in the list U1000 stands.\n\t\t\t\tcontinue\n", New: "\t\t\t\t// wherever in the list U1000 stands.\n\t\t\t\treturn false\n"},
+			{Name: "useless-glob-directives-never-reported", File: "lintcmd/lint.go", Rule: "R10.3", KeyPart: "names-are-globs",
+				Old: "\t\t\t\tif m, _ := filepath.Match(c.String(), name.String()); m {\n\t\t\t\t\treturn true\n\t\t\t\t}\n", New: "\t\t\t\tif c == name {\n\t\t\t\t\treturn true\n\t\t\t\t}\n"},
 			{Name: "disabled-checks-flagged", File: "lintcmd/lint.go", Rule: "R10.3", KeyPart: "only-enabled-checks",
-				Old: "\t\t\tif allowedAnalyzers[c] {\n\t\t\t\treturn true\n\t\t\t}\n\t\t}\n\n\t\treturn false\n\t}", New: "\t\t\tif allowedAnalyzers[c] {\n\t\t\t\treturn true\n\t\t\t}\n\t\t}\n\n\t\treturn len(ig.Checks) > 0\n\t}"},
+				Old: "\t\t\t\tif !enabled || name.String() == \"u1000\" {\n\t\t\t\t\tcontinue\n\t\t\t\t}\n", New: "\t\t\t\tif name.String() == \"u1000\" {\n\t\t\t\t\tcontinue\n\t\t\t\t}\n\t\t\t\t_ = enabled\n"},
 			{Name: "directive-position-raw", File: "lintcmd/runner/runner.go", Rule: "R10.4", KeyPart: "NodePosition",
 				Old: "\t\tNodePosition:      report.DisplayPosition(fset, dir.Node.Pos()),\n", New: "\t\tNodePosition:      fset.PositionFor(dir.Node.Pos(), false),\n"},
 			{Name: "u1000-exact-name", File: "unused/unused.go", Rule: "R10.5", KeyPart: "u1000-name-predicate",
@@ -375,27 +377,67 @@ func runC10(c *Ctx) {
 		if !found {
 			c.Undecided("filterIgnored no longer produces the unmatched-directive problem")
 		}
-		// couldHaveMatched: u1000 ⇒ false; true only for enabled analyzers
+		// couldHaveMatched, in the property's words: a directive that suppressed nothing is reported "unless it only
+		// names disabled checks or U1000". So (a) the result is true only for a name that denotes an enabled check,
+		// (b) names are globs here as everywhere else (a directive that names its checks as SA4* is as useless as one
+		// that spells them out), (c) U1000 never makes the result true, and (d) U1000 does not decide for the other
+		// names either: the answer must not depend on where in the list U1000 stands.
 		u1000 := EqEdges(chm, func(x, y ssa.Value) bool {
 			s, ok := constStringVal(y)
-			return ok && strings.EqualFold(s, "u1000")
+			// the test on one of the directive's own names
+			return ok && strings.EqualFold(s, "u1000") && Derives(x, IsFieldOf("lintcmd.lineIgnore", "Checks"))
 		})
-		enabled := CondEdges(chm, func(cond ssa.Value) (bool, bool) {
-			l, ok := cond.(*ssa.Lookup)
-			return ok && !l.CommaOk && Derives(l.X, func(v ssa.Value) bool {
-				switch v.(type) {
+		isAllowMap := func(v ssa.Value) bool {
+			return Derives(v, func(x ssa.Value) bool {
+				switch x.(type) {
 				case *ssa.FreeVar, *ssa.Parameter:
-					return strings.Contains(v.Type().String(), "map[")
+					return strings.Contains(x.Type().String(), "map[") && strings.HasSuffix(x.Type().String(), "]bool")
 				}
 				return false
-			}), true
+			})
+		}
+		enabled := CondEdgesPhi(chm, func(cond ssa.Value) (bool, bool) {
+			switch x := cond.(type) {
+			case *ssa.Lookup:
+				return !x.CommaOk && isAllowMap(x.X), true
+			case *ssa.Extract:
+				// for name, on := range allowedAnalyzers
+				if nx, ok := x.Tuple.(*ssa.Next); ok && x.Index == 2 {
+					if rg, ok := nx.Iter.(*ssa.Range); ok && isAllowMap(rg.X) {
+						return true, true
+					}
+				}
+			}
+			return false, false
 		})
+		globbed := CallTrueEdges(chm, func(call *ssa.Call) bool { return CalleeName(&call.Call) == "path/filepath.Match" })
+		for _, ex := range []bool{true} {
+			_ = ex
+			// filepath.Match returns (bool, error): its result is extracted
+			for e := range CondEdgesPhi(chm, func(cond ssa.Value) (bool, bool) {
+				x, ok := cond.(*ssa.Extract)
+				if !ok || x.Index != 0 {
+					return false, false
+				}
+				call, ok := x.Tuple.(*ssa.Call)
+				return ok && CalleeName(&call.Call) == "path/filepath.Match", true
+			}) {
+				globbed[e] = true
+			}
+		}
+		nTrue := 0
 		for i, r := range Returns(chm) {
 			if isBoolConst(ReturnOperand(r, 0), false) {
 				continue
 			}
+			nTrue++
 			ok, p := MustPassEdges(chm, r, enabled)
 			c.Check(FuncKey(chm)+"::only-enabled-checks#"+itoa(i), r.Pos(), ok && len(enabled) > 0 && isBoolConst(ReturnOperand(r, 0), true), "an unmatched directive is reported only if it names a check the user enabled; path: %s", PathString(chm, p))
+			okG, pG := MustPassEdges(chm, r, globbed)
+			c.Check(FuncKey(chm)+"::names-are-globs#"+itoa(i), r.Pos(), okG && len(globbed) > 0, "the names of a directive are globs (SA4*, SA400?): whether a useless directive names an enabled check must be decided with the same glob match that decides what it suppresses, otherwise a useless directive written with a glob is never reported; path without a glob match: %s", PathString(chm, pG))
+		}
+		if nTrue == 0 {
+			c.Undecided("couldHaveMatched never answers true")
 		}
 		if len(u1000) == 0 {
 			c.Check(FuncKey(chm)+"::u1000-never-flagged", chm.Pos(), false, "couldHaveMatched no longer special-cases u1000")
@@ -407,19 +449,24 @@ func runC10(c *Ctx) {
 					blk = b.Succs[e.Succ]
 				}
 			}
-			// from the u1000 edge only 'return false' is reachable
-			t, path := PathAvoiding(chm, blk.Instrs[0], func(in ssa.Instruction) bool {
-				r, ok := in.(*ssa.Return)
-				return ok && !isBoolConst(ReturnOperand(r, 0), false)
-			}, nil, nil)
-			if r, ok := blk.Instrs[0].(*ssa.Return); ok && !isBoolConst(ReturnOperand(r, 0), false) {
-				t = r
+			// the current name is u1000: no answer may be given for THIS name — neither true (c) nor a final false (d);
+			// the next answer is reachable only through the loop head (a φ), i.e. for another name or after the last one
+			isAnswer := func(in ssa.Instruction) bool { _, ok := in.(*ssa.Return); return ok }
+			passesLoopHead := func(in ssa.Instruction) bool { _, ok := in.(*ssa.Phi); return ok }
+			t, path := PathAvoiding(chm, nil, isAnswer, passesLoopHead, nil)
+			_ = t
+			// search from the first instruction of the edge's target block
+			var start ssa.Instruction = blk.Instrs[0]
+			direct := isAnswer(start)
+			var t2 ssa.Instruction
+			if !direct {
+				if passesLoopHead(start) {
+					t2 = nil
+				} else {
+					t2, path = PathAvoiding(chm, start, isAnswer, passesLoopHead, nil)
+				}
 			}
-			// the edge itself must be unconditional on u1000 (no extra conjunct): the block of the comparison is reached for every check
-			c.Check(FuncKey(chm)+"::u1000-never-flagged", blk.Instrs[0].Pos(), t == nil, "a line ignore that names U1000 is never reported as unmatched (U1000 is not local to one package); path to a true result: %s", PathString(chm, path))
-			// and the u1000 test must not be weakened by an additional condition: its true edge leaves directly
-			_, direct := blk.Instrs[0].(*ssa.Return)
-			c.Check(FuncKey(chm)+"::u1000-never-flagged::unconditional", blk.Instrs[0].Pos(), direct, "the u1000 test returns false directly (no further condition)")
+			c.Check(FuncKey(chm)+"::u1000-never-flagged", start.Pos(), !direct && t2 == nil, "when a name is U1000 the answer is left to the directive's other names: returning at once (true or false) makes `U1000,SA4006` and `SA4006,U1000` behave differently; path from the U1000 test to an answer without looking at the next name: %s", PathString(chm, path))
 		}
 	})
 
